@@ -900,12 +900,29 @@ def _case(draw, tier, names):
     if name == "filldown" and False:
         pass
     args = o.args(draw, tbl)
-    return {"op": name, "table": tbl, "args": args}
+    c = {"op": name, "table": tbl, "args": args}
+    # one case in ten runs at scale: the data rows repeated until the table passes a size that small examples never reach
+    # (beyond 1000 rows, beyond an 8 KiB read buffer ...); the reference is computed on the big table itself
+    if len(tbl) > 1 and draw(st.integers(0, 9)) == 0:
+        # (addfieldusingcontext's test function nests the previous row's value: depth grows with the row count)
+        c["blowup"] = draw(st.sampled_from([65, 130] if name == "addfieldusingcontext" else [65, 130, 257, 1001, 1025, 2049]))
+    return c
+
+
+def _blown(case):
+    tbl = case["table"]
+    n = case.get("blowup")
+    if not n or len(tbl) < 2:
+        return tbl
+    rows = tbl[1:]
+    return [tbl[0]] + [list(rows[i % len(rows)]) for i in range(n)]
 
 
 def check(case, ctx):
     o = OPS[case["op"]]
-    tbl, args = case["table"], case["args"]
+    tbl, args = _blown(case), case["args"]
+    if case.get("blowup"):
+        ctx.label("at-scale")
     src = codec.snapshot(tbl)
     exp = o.ref(tbl, args)
     exp = [tuple(r) if isinstance(r, (list, tuple)) else r for r in exp]
@@ -924,6 +941,10 @@ def check(case, ctx):
             what = "row-count"
         elif got[:1] != exp[:1]:
             what = "header"
+        if case.get("blowup"):
+            k = next((i for i, (g, x) in enumerate(zip(got, exp)) if not codec.strict_eq(g, x)), min(len(got), len(exp)))
+            return Fail("%s/%s" % (o.name, what), "%s on %d rows (the rows of %r repeated), arguments %r: %d rows out, reference %d; first "
+                        "difference at output row %d: %r vs %r" % (o.name, len(tbl) - 1, case["table"], args, len(got), len(exp), k, got[k:k + 1], exp[k:k + 1]))
         return Fail("%s/%s" % (o.name, what), "%s(%r, %r) gave %r, reference %r" % (o.name, tbl, args, got, exp))
     if not codec.strict_eq(src, tbl):
         return Fail(o.name + "/source-mutated", "source changed")
